@@ -141,3 +141,27 @@ pub fn gen_roundtrip(r: &mut Rng) -> String {
     let qe = r.range(qs as u64, end as u64 + 5) as u32;
     format!("ips={} bs={} compress={} len={} q={},{} vals={}", r.range(1, 4), r.range(2, 4), r.below(2), end + 10, qs, qe, fmt_vals(&vals))
 }
+
+/// C09/C07: the zoom directory in the header lists levels that exist, and the total summary is intact,
+/// whatever the number of requested zoom sizes.  args: n=<number of manual zoom sizes> multipass=0|1
+pub fn run_zoom_dir(a: &Args) -> Result<(), String> {
+    let n: u32 = a.get("n").map(|s| s.parse().unwrap()).unwrap_or(11);
+    let multipass = a.get("multipass").map(|s| s == "1").unwrap_or(false);
+    let vals: Vec<(u32, u32, f32)> = (0..50).map(|i| (i * 10, i * 10 + 10, 1.5)).collect();
+    let sizes: Vec<u32> = (1..=n).map(|k| 2 * k).collect();
+    let tf = write_bw(&vals, 1000, 4, 4, Some(sizes.clone()), false, multipass)?;
+    let mut r = BigWigRead::open_file(tf.path()).map_err(|e| format!("open: {}", e))?;
+    let levels: Vec<u32> = r.info().zoom_headers.iter().map(|z| z.reduction_level).collect();
+    for (i, l) in levels.iter().enumerate() {
+        if !sizes.contains(l) { return Err(format!("zoom directory entry {} has reduction level {} which was never requested (requested {:?}, directory {:?})", i, l, sizes, levels)); }
+    }
+    let s = r.get_summary().map_err(|e| e.to_string())?;
+    if s.bases_covered != 500 || (s.sum - 750.0).abs() > 1e-9 { return Err(format!("total summary corrupted: bases_covered={} sum={} (expected 500, 750) with {} zoom sizes", s.bases_covered, s.sum, n)); }
+    for l in levels {
+        let recs = r.get_zoom_interval("chr1", 0, 1000, l).map_err(|e| format!("zoom {} query: {:?}", l, e))?.collect::<Result<Vec<_>, _>>().map_err(|e| format!("zoom {} read: {}", l, e))?;
+        let total: u64 = recs.iter().map(|z| z.summary.bases_covered).sum();
+        if total != 500 { return Err(format!("zoom level {} covers {} bases, data has 500", l, total)); }
+    }
+    Ok(())
+}
+pub fn gen_zoom_dir(r: &mut Rng) -> String { format!("n={} multipass={}", r.range(1, 14), r.below(2)) }
